@@ -3,8 +3,8 @@ CONSTANTS
   Files = 1
   StickyGrid = FALSE
   Truthiness = FALSE
-  As = {1, 2, 3, 4, 5, 7, 25}
-  Es = {1, 2, 3, 4}
+  As = {1, 2, 3, 4, 5, 7, 25, 1234, 3125}
+  Es = {1, 2, 3, 4, 7}
   Ks = {1,2,3,4,5,6,7,8,9,10,11,12,13,14,15,16,17,18,19,20,21,22,23,24,25,26,27,28,29,30,31,32,33,34,35,36,37,38,39,40,41,42,43,44,45,46,47,48,49,50,51,52,53,54,55,56,57,58,59,60,70,80,90,100,110,120,130,140,150,200,224,250,300,333,400,419,444,500,600,700,838,900,1000,1500,2000,3000,4001,5000,10000,20000}
 INVARIANT ImplAgrees
 INVARIANT AcceptedShape
